@@ -12,6 +12,10 @@ whole-source structural controls.
                   found by running the prologue on a recognisable symbolic input and looking at
                   which local holds which input value - no local-variable name is assumed.
   step_function   one loop iteration as a synthetic function over the role names.
+  bucket_values   the expressions that create a group's bucket (values of the bucket store, containers
+                  built in a sweep's iterable), classified: container of the language / class of the tree.
+  (LinInterp also models dataclasses.replace / copy.replace / copy.copy on records: a new record with
+  the named fields replaced, every other field shared.)
   splice / reach  helpers for structural (whole-source) seeded controls.
 """
 from __future__ import annotations
@@ -59,6 +63,10 @@ def proportional(p: Poly, w: Poly) -> Fraction | None:
         return None
     k = next(iter(ks))
     return k if k != 0 else None
+
+
+# stdlib spellings of "a new record like this one, with these fields replaced"
+_RECORD_COPIES = {"ext:dataclasses.replace", "ext:copy.replace", "ext:copy.copy"}
 
 
 class Unknown:
@@ -148,6 +156,8 @@ class LinInterp(OrderInterp):
             return ("havoc", base, attr)
         if isinstance(base, Unknown):
             return Unknown(f"{base.name}.{attr}")
+        if isinstance(base, Obj) and f"{base.cls}.{attr}" in _RECORD_COPIES:
+            return ("builtin", "record_copy")
         return super().get_attr(base, attr, node)
 
     def _havoc_lookup(self, h: Havoc, key: Any, node: ast.AST) -> tuple[bool, Any]:
@@ -306,6 +316,8 @@ class LinInterp(OrderInterp):
         if ident in ("abs", "reversed", "all", "any"):
             return ("builtin", ident)
         got = super().unknown_name(ident, node)
+        if isinstance(got, Obj) and got.cls in _RECORD_COPIES:
+            return ("builtin", "record_copy")
         if isinstance(got, Obj) and got.cls.startswith("ext:") and hasattr(builtins, ident):
             # the base interpreter would model the call as an opaque (always truthy) record
             raise AnalysisError(f"Python builtin {ident}() is not modelled by the order-domain interpreter "
@@ -320,6 +332,14 @@ class LinInterp(OrderInterp):
             return all(items) if name == "all" else any(items)
         if name == "reversed" and len(pos) == 1 and not kw:
             return list(reversed(list(self.iterate(pos[0], node))))
+        if name == "record_copy":
+            # dataclasses.replace(obj, **changes) / copy.replace / copy.copy: a *new* record of the same
+            # class with the named fields replaced and every other field shared with the original
+            if len(pos) != 1 or not isinstance(pos[0], Obj) or pos[0].cls.startswith(("ext:", "class:")):
+                raise AnalysisError(f"copy of a value that is not a modelled record (line {getattr(node, 'lineno', '?')})")
+            fields = dict(pos[0].fields)
+            fields.update(kw)
+            return Obj(pos[0].cls, **fields)
         if name == "abs" and len(pos) == 1 and not kw:
             lv = self._lin(pos[0])
             if lv is not None:
@@ -722,6 +742,151 @@ def sweep_roles(prog: Program, entry: FuncInfo, entry_sys: str, extra: dict[str,
         ts = [n for n, v in env.items() if v is zero and n in svars and n in in_loop]
         sw.T = ts[0] if len(ts) == 1 else None
     return sw
+
+
+# ---------------------------------------------------------------------------------------------
+# the container that plays the role "bucket of a component group"
+# ---------------------------------------------------------------------------------------------
+_BUILTIN_CONTAINERS = ("set", "frozenset", "list", "dict", "tuple", "sorted")
+_ORDER_WRAPPERS = ("sorted", "reversed", "list", "tuple", "iter", "set", "frozenset")
+
+
+@dataclass
+class BucketValue:
+    fn: FuncInfo            # function the expression sits in
+    node: ast.AST           # the expression that yields a bucket
+    site: ast.AST           # the construct that puts it into the bucket role
+    how: str                # what makes it a bucket
+    kind: str               # 'builtin' (container of the language) | 'class' (defined in the analysed tree)
+    cls: Any = None         # the ClassInfo for kind == 'class'
+
+
+def _own_code(cls: Any) -> list[str]:
+    """Names of the methods a class defined in the tree brings along (empty for `class B(set): pass`)."""
+    return sorted(cls.methods)
+
+
+def bucket_values(prog: Program, owner: Any, store: str, loops: Iterable[tuple[FuncInfo, ast.For]]) -> list[BucketValue]:
+    """Every expression of the class `owner` (and of the plain functions of its module) that *yields a
+    bucket*: the value stored under a key of `self.<store>` (subscript store, second argument of
+    setdefault / get / pop, values of a dict display or comprehension assigned to the attribute, factory
+    of a defaultdict) and a container built in the iterable of a proposal loop.  Each is classified by
+    what constructs it: a container of the language (display, comprehension, set() / list() / dict() /
+    frozenset() / tuple() / sorted()) or a class defined in the analysed tree; locals are followed
+    through their assignments, factory helpers through their returns.  Anything else (parameters,
+    lookups in the store itself, third-party constructors) is not decided here: the interpreters meet
+    it and fail closed."""
+    out: list[BucketValue] = []
+    fns: list[FuncInfo] = list(owner.methods.values()) + list(owner.module.functions.values())
+
+    def is_builtin_name(mod: Any, ident: str) -> bool:
+        return ident not in mod.classes and ident not in mod.functions and ident not in mod.imports \
+            and ident not in mod.assigns
+
+    def classify(fn: FuncInfo, e: ast.AST | None, site: ast.AST, how: str, depth: int = 0) -> None:
+        if e is None or depth > 4 or (isinstance(e, ast.Constant) and e.value is None):
+            return
+        if isinstance(e, (ast.Set, ast.List, ast.Dict, ast.Tuple, ast.ListComp, ast.SetComp, ast.DictComp,
+                          ast.GeneratorExp)):
+            out.append(BucketValue(fn, e, site, how, "builtin"))
+            return
+        if isinstance(e, ast.IfExp):
+            classify(fn, e.body, site, how, depth + 1)
+            classify(fn, e.orelse, site, how, depth + 1)
+            return
+        if isinstance(e, ast.BoolOp):
+            for v in e.values:
+                classify(fn, v, site, how, depth + 1)
+            return
+        if isinstance(e, ast.NamedExpr):
+            classify(fn, e.value, site, how, depth + 1)
+            return
+        if isinstance(e, ast.Name):
+            if e.id in fn.params:
+                return
+            for n in walk_no_nested(fn.node):
+                if isinstance(n, ast.Assign) and any(isinstance(t, ast.Name) and t.id == e.id for t in n.targets):
+                    classify(fn, n.value, site, how, depth + 1)
+                elif isinstance(n, (ast.AnnAssign, ast.NamedExpr)) and isinstance(n.target, ast.Name) \
+                        and n.target.id == e.id and n is not e:
+                    classify(fn, n.value, site, how, depth + 1)
+            return
+        if isinstance(e, ast.Call):
+            classify_ctor(fn, e.func, e, site, how, depth)
+
+    def classify_ctor(fn: FuncInfo, f: ast.AST, e: ast.AST, site: ast.AST, how: str, depth: int) -> None:
+        """`f` is what is called (or handed over as a factory) to make the bucket."""
+        while isinstance(f, ast.Subscript):  # SortedSet[Proposal]()
+            f = f.value
+        mod = fn.module
+        if isinstance(f, ast.Lambda):
+            classify(fn, f.body, site, how, depth + 1)
+            return
+        if isinstance(f, ast.Name) and f.id in _BUILTIN_CONTAINERS and is_builtin_name(mod, f.id):
+            out.append(BucketValue(fn, e, site, how, "builtin"))
+            return
+        tgt: Any = None
+        if isinstance(f, ast.Attribute) and isinstance(f.value, ast.Name) and fn.cls is not None and fn.params \
+                and f.value.id in (fn.params[0], fn.cls.name):
+            tgt = prog.resolve_method(fn.cls, f.attr)
+        if tgt is None:
+            try:
+                name = ast.unparse(f)
+            except Exception:  # noqa: BLE001
+                return
+            tgt = prog.resolve_name(mod, name)
+        if isinstance(tgt, FuncInfo) and tgt.name == "__init__" and tgt.cls is not None:
+            tgt = tgt.cls
+        if isinstance(tgt, FuncInfo):
+            for n in walk_no_nested(tgt.node):
+                if isinstance(n, ast.Return):
+                    classify(tgt, n.value, site, how, depth + 1)
+            return
+        if tgt is not None and hasattr(tgt, "methods") and hasattr(tgt, "base_exprs"):
+            plain = not _own_code(tgt) and all(b in _BUILTIN_CONTAINERS for b in tgt.base_exprs) and tgt.base_exprs
+            out.append(BucketValue(fn, e, site, how, "builtin" if plain else "class", None if plain else tgt))
+
+    for fn in fns:
+        me = fn.params[0] if fn.cls is not None and fn.params and not _is_static(fn.node) else None
+
+        def is_store_attr(x: ast.AST, me: str | None = me) -> bool:
+            return isinstance(x, ast.Attribute) and x.attr == store and isinstance(x.value, ast.Name) and x.value.id == me
+
+        aliases = {t.id for n in walk_no_nested(fn.node) if isinstance(n, ast.Assign) and is_store_attr(n.value)
+                   for t in n.targets if isinstance(t, ast.Name)}
+
+        def is_store(x: ast.AST, aliases: set[str] = aliases) -> bool:
+            return is_store_attr(x) or (isinstance(x, ast.Name) and x.id in aliases)
+
+        for n in walk_no_nested(fn.node):
+            if isinstance(n, ast.Call) and isinstance(n.func, ast.Attribute) and is_store(n.func.value) \
+                    and n.func.attr in ("setdefault", "get", "pop"):
+                dflt = n.args[1] if len(n.args) > 1 else next((k.value for k in n.keywords if k.arg == "default"), None)
+                classify(fn, dflt, n, f"the default of {store}.{n.func.attr}()")
+            tgts: list[ast.AST] = []
+            val: ast.AST | None = None
+            if isinstance(n, ast.Assign):
+                tgts, val = list(n.targets), n.value
+            elif isinstance(n, ast.AnnAssign) and n.value is not None:
+                tgts, val = [n.target], n.value
+            for t in tgts:
+                if isinstance(t, ast.Subscript) and is_store(t.value):
+                    classify(fn, val, n, f"stored under a key of {store}")
+                elif is_store_attr(t) and val is not None:
+                    if isinstance(val, ast.Dict):
+                        for v in val.values:
+                            classify(fn, v, n, f"a value of the {store} display")
+                    elif isinstance(val, ast.DictComp):
+                        classify(fn, val.value, n, f"a value of the {store} comprehension")
+                    elif isinstance(val, ast.Call) and val.args and ast.unparse(val.func).split(".")[-1] == "defaultdict":
+                        classify_ctor(fn, val.args[0], val.args[0], n, f"the factory of the {store} defaultdict", 0)
+    for fn, loop in loops:
+        e: ast.AST = loop.iter
+        while isinstance(e, ast.Call) and isinstance(e.func, ast.Name) and e.func.id in _ORDER_WRAPPERS and e.args:
+            e = e.args[0]
+        if isinstance(e, ast.Call) and not (isinstance(e.func, ast.Attribute) and e.func.attr in ("get", "setdefault", "pop", "values", "keys", "items")):
+            classify(fn, e, loop.iter, "the collection the proposal loop iterates")
+    return out
 
 
 STOPPED = "_sweep_stopped"
